@@ -90,11 +90,51 @@ theorem wf_iff (cfg : Cfg) (d : Dict) : wf cfg d = true ↔ d.map Prod.fst = cfg
 @[simp] theorem failedExc_mem (e : Option ExcKind) (s : St) : (failedExc e s).mem = s.mem := rfl
 @[simp] theorem failedExc_ok (e : Option ExcKind) (s : St) : (failedExc e s).ok = false := rfl
 @[simp] theorem fine_ok (s : St) : (fine s).ok = true := rfl
-@[simp] theorem announceMemberIn_struct (m : String) (x : Val) (s : St) : (announceMemberIn m x s).struct = s.struct := rfl
-@[simp] theorem announceMemberIn_mem (m : String) (x : Val) (s : St) :
-    (announceMemberIn m x s).mem = s.mem.set m x := rfl
+@[simp] theorem structError_struct (s : St) : (structError s).struct = s.struct := rfl
+@[simp] theorem structError_mem (s : St) : (structError s).mem = s.mem := rfl
+@[simp] theorem memberError_struct (m : String) (s : St) : (memberError m s).struct = s.struct := rfl
+@[simp] theorem memberError_mem (m : String) (s : St) : (memberError m s).mem = s.mem := rfl
+@[simp] theorem loopError_struct (b : Bool) (s : St) : (loopError b s).struct = s.struct := by
+  unfold loopError; split <;> rfl
+@[simp] theorem loopError_mem (b : Bool) (s : St) : (loopError b s).mem = s.mem := by
+  unfold loopError; split <;> rfl
 
-@[simp] theorem setMembers_struct (ms : List String) (d : Dict) : ∀ s, (setMembers ms d s).struct = s.struct := by
+/-- storing the value a key already has changes nothing -/
+theorem set_same (d : Dict) (k : String) (v : Val) (h : d.lookup k = some v) : d.set k v = d := by
+  induction d with
+  | nil => simp [List.lookup] at h
+  | cons e t ih =>
+    obtain ⟨k0, x⟩ := e
+    simp only [Dict.set]
+    by_cases h0 : k0 = k
+    · subst h0
+      simp [List.lookup] at h
+      simp [h]
+    · have hb : (k == k0) = false := by simpa using (fun e => h0 e.symm)
+      simp only [List.lookup, hb] at h
+      simp only [h0, if_false]
+      rw [ih h]
+
+theorem omittedS_same (cfg : Cfg) (same pend : Bool) (h : omittedS cfg same pend = true) : same = true := by
+  unfold omittedS at h
+  simp only [Bool.and_eq_true] at h
+  exact h.1.2
+
+@[simp] theorem announceMemberIn_struct (cfg : Cfg) (m : String) (x : Val) (s : St) :
+    (announceMemberIn cfg m x s).struct = s.struct := by
+  unfold announceMemberIn; split <;> rfl
+
+/-- omitted or not: afterwards the member parameter holds `x` -/
+@[simp] theorem announceMemberIn_mem (cfg : Cfg) (m : String) (x : Val) (s : St) :
+    (announceMemberIn cfg m x s).mem = s.mem.set m x := by
+  unfold announceMemberIn
+  split
+  · rename_i ho
+    have := omittedS_same _ _ _ ho
+    exact (set_same _ _ _ (by simpa using this)).symm
+  · rfl
+
+@[simp] theorem setMembers_struct (cfg : Cfg) (ms : List String) (d : Dict) : ∀ s, (setMembers cfg ms d s).struct = s.struct := by
   induction ms with
   | nil => intro s; rfl
   | cons m ms ih =>
@@ -102,10 +142,10 @@ theorem wf_iff (cfg : Cfg) (d : Dict) : wf cfg d = true ↔ d.map Prod.fst = cfg
     simp only [setMembers]
     split
     · rfl
-    · rw [ih]; rfl
+    · rw [ih]; simp
 
-theorem setMembers_lookup (ms : List String) (d : Dict) (hd : ∀ m ∈ ms, ∃ x, d.lookup m = some x) :
-    ∀ s k, (setMembers ms d s).mem.lookup k = if k ∈ ms then d.lookup k else s.mem.lookup k := by
+theorem setMembers_lookup (cfg : Cfg) (ms : List String) (d : Dict) (hd : ∀ m ∈ ms, ∃ x, d.lookup m = some x) :
+    ∀ s k, (setMembers cfg ms d s).mem.lookup k = if k ∈ ms then d.lookup k else s.mem.lookup k := by
   induction ms with
   | nil => intro s k; simp [setMembers]
   | cons m ms ih =>
@@ -127,40 +167,60 @@ def Inv (cfg : Cfg) (s : St) : Prop :=
 theorem inv_congr (cfg : Cfg) {s t : St} (h1 : t.struct = s.struct) (h2 : t.mem = s.mem) (h : Inv cfg s) : Inv cfg t := by
   unfold Inv; rw [h1, h2]; exact h
 
-theorem inv_announceStruct (cfg : Cfg) (d : Dict) (s : St) (hd : wf cfg d = true) : Inv cfg (announceStruct cfg d s) := by
-  have hkeys := (wf_iff cfg d).1 hd
-  have hsome : ∀ m ∈ cfg.members, ∃ x, d.lookup m = some x := fun m hm =>
-    lookup_isSome_of_mem_keys d m (by rw [hkeys]; exact hm)
-  refine ⟨by simpa [announceStruct] using hd, fun m hm => ?_⟩
-  obtain ⟨x, hx⟩ := hsome m hm
-  refine ⟨x, by simpa [announceStruct] using hx, ?_⟩
-  simp only [announceStruct, emit_mem]
-  rw [setMembers_lookup cfg.members d hsome]
-  simp [hm, hx]
+/-- an update of the struct: the callback brings all members along; when the update is omitted (the struct already has
+this value) the members must agree with it already -/
+theorem inv_announceStruct (cfg : Cfg) (d : Dict) (s : St) (hd : wf cfg d = true)
+    (h : s.struct = d → MembersAgree cfg.members d s.mem) : Inv cfg (announceStruct cfg d s) := by
+  unfold announceStruct
+  split
+  · rename_i ho
+    have hs : s.struct = d := by simpa using omittedS_same _ _ _ ho
+    exact ⟨by rw [hs]; exact hd, by rw [hs]; exact h hs⟩
+  · have hkeys := (wf_iff cfg d).1 hd
+    have hsome : ∀ m ∈ cfg.members, ∃ x, d.lookup m = some x := fun m hm =>
+      lookup_isSome_of_mem_keys d m (by rw [hkeys]; exact hm)
+    refine ⟨by simpa using hd, fun m hm => ?_⟩
+    obtain ⟨x, hx⟩ := hsome m hm
+    refine ⟨x, by simpa using hx, ?_⟩
+    simp only [emit_mem]
+    rw [setMembers_lookup cfg cfg.members d hsome]
+    simp [hm, hx]
 
-theorem inv_assignStruct (cfg : Cfg) (d : Dict) (s : St) (hd : wf cfg d = true) : Inv cfg (assignStruct cfg d s) := by
-  unfold assignStruct; rw [if_pos hd]; exact inv_announceStruct cfg d s hd
+theorem inv_assignStruct (cfg : Cfg) (d : Dict) (s : St) (hd : wf cfg d = true)
+    (h : s.struct = d → MembersAgree cfg.members d s.mem) : Inv cfg (assignStruct cfg d s) := by
+  unfold assignStruct; rw [if_pos hd]; exact inv_announceStruct cfg d s hd h
 
 theorem wf_set (cfg : Cfg) (d : Dict) (m : String) (x : Val) (hd : wf cfg d = true) (hm : m ∈ cfg.members) :
     wf cfg (d.set m x) = true := by
   rw [wf_iff] at *
   rw [keys_set d m x (by rw [hd]; exact hm)]; exact hd
 
+theorem agree_set (cfg : Cfg) (s : St) (m : String) (x : Val) (h : Inv cfg s) :
+    MembersAgree cfg.members (s.struct.set m x) (s.mem.set m x) := by
+  intro k hk
+  rw [lookup_set, lookup_set]
+  by_cases hkm : k = m
+  · exact ⟨x, by simp [hkm], by simp [hkm]⟩
+  · simp only [hkm, if_false]; exact h.2 k hk
+
 theorem inv_announceMember (cfg : Cfg) (m : String) (x : Val) (s : St) (h : Inv cfg s) (hm : m ∈ cfg.members) :
     Inv cfg (announceMember cfg m x s) := by
   unfold announceMember
-  apply inv_congr cfg (emit_struct _ _) (emit_mem _ _)
-  exact inv_assignStruct cfg _ _ (wf_set cfg _ m x h.1 hm)
+  split
+  · exact h
+  · apply inv_congr cfg (emit_struct _ _) (emit_mem _ _)
+    exact inv_assignStruct cfg _ _ (wf_set cfg _ m x h.1 hm) (fun _ => agree_set cfg s m x h)
 
 theorem inv_readStructA (cfg : Cfg) (r : RRes Dict) (s : St) (h : Inv cfg s) : Inv cfg (readStructA cfg r s) := by
   unfold readStructA
   cases r with
-  | fail k => exact h
+  | fail k => exact inv_congr cfg (by simp) (by simp) h
   | ok d =>
     simp only
     split
-    · rename_i hd; exact inv_congr cfg (fine_struct _) (fine_mem _) (inv_announceStruct cfg d s hd)
-    · exact h
+    · rename_i hd
+      exact inv_congr cfg (fine_struct _) (fine_mem _) (inv_announceStruct cfg d s hd (fun e => by rw [← e]; exact h.2))
+    · exact inv_congr cfg (by simp) (by simp) h
 
 theorem inv_writeStructA (cfg : Cfg) (v : Dict) (w : WRes Dict) (s : St) (h : Inv cfg s) :
     Inv cfg (writeStructA cfg v w s) := by
@@ -169,11 +229,13 @@ theorem inv_writeStructA (cfg : Cfg) (v : Dict) (w : WRes Dict) (s : St) (h : In
   · simp only [hv, Bool.not_true, Bool.false_eq_true, if_false]
     cases w with
     | fail k => exact h
-    | retNone => exact inv_congr cfg (fine_struct _) (fine_mem _) (inv_announceStruct cfg v s hv)
+    | retNone =>
+      exact inv_congr cfg (fine_struct _) (fine_mem _) (inv_announceStruct cfg v s hv (fun e => by rw [← e]; exact h.2))
     | ret d =>
       simp only
       split
-      · rename_i hd; exact inv_congr cfg (fine_struct _) (fine_mem _) (inv_announceStruct cfg d s hd)
+      · rename_i hd
+        exact inv_congr cfg (fine_struct _) (fine_mem _) (inv_announceStruct cfg d s hd (fun e => by rw [← e]; exact h.2))
       · exact h
   · simp only [hv, Bool.not_false, if_true]; exact h
 
@@ -195,7 +257,7 @@ theorem inv_readMemberB (cfg : Cfg) (m : String) (r : RRes Val) (s : St) (h : In
   unfold readMemberB
   split
   · cases r with
-    | fail k => exact h
+    | fail k => exact inv_congr cfg (by simp) (by simp) h
     | ok x => exact inv_congr cfg (fine_struct _) (fine_mem _) (inv_announceMember cfg m x s h hm)
   · exact h
 
@@ -205,9 +267,9 @@ theorem inv_readMemberA (cfg : Cfg) (m : String) (r : RRes Dict) (s : St) (h : I
   have h1 := inv_readStructC cfg r s h
   simp only
   split
-  · exact h1
+  · exact inv_congr cfg (by simp) (by simp) h1
   · split
-    · exact h1
+    · exact inv_congr cfg (by simp) (by simp) h1
     · exact inv_congr cfg (fine_struct _) (fine_mem _) (inv_announceMember cfg m _ _ h1 hm)
 
 theorem inv_writeMemberA (cfg : Cfg) (m : String) (v : Val) (w : WRes Dict) (r : RRes Dict) (rB : RRes Val) (s : St)
@@ -238,16 +300,80 @@ theorem inv_writeMemberB (cfg : Cfg) (m : String) (v : Val) (w : WRes Val) (s : 
     | ret x => exact inv_congr cfg (fine_struct _) (fine_mem _) (inv_announceMember cfg m x s h hm)
   · exact inv_congr cfg (fine_struct _) (fine_mem _) (inv_announceMember cfg m v s h hm)
 
-/-- loop invariant of the generated struct methods: `done` = the members treated so far -/
+/-! the generated struct methods of the per-member layout -/
+
+theorem lookup_none_of_not_mem_keys (d : Dict) (k : String) (h : k ∉ d.map Prod.fst) : d.lookup k = none := by
+  induction d with
+  | nil => rfl
+  | cons e t ih =>
+    obtain ⟨k0, x⟩ := e
+    simp only [List.map_cons, List.mem_cons, not_or] at h
+    have hb : (k == k0) = false := by simpa using h.1
+    simp only [List.lookup, hb]
+    exact ih h.2
+
+theorem lookup_append_single (d : Dict) (m : String) (x : Val) (k : String) :
+    (d ++ [(m, x)]).lookup k = match d.lookup k with
+      | some y => some y
+      | none => if k = m then some x else none := by
+  induction d with
+  | nil =>
+    by_cases h : k = m
+    · simp [List.lookup, h]
+    · have hb : (k == m) = false := by simpa using h
+      simp [List.lookup, hb, h]
+  | cons e t ih =>
+    obtain ⟨k0, y⟩ := e
+    by_cases h0 : k = k0
+    · simp [List.lookup, h0]
+    · have hb : (k == k0) = false := by simpa using h0
+      simp only [List.cons_append, List.lookup, hb]
+      exact ih
+
+theorem lookup_merge_notin (r : Dict) (k : String) (h : k ∉ r.map Prod.fst) : ∀ d, (Dict.merge d r).lookup k = d.lookup k := by
+  unfold Dict.merge
+  induction r with
+  | nil => intro d; rfl
+  | cons e r ih =>
+    intro d
+    simp only [List.map_cons, List.mem_cons, not_or] at h
+    simp only [List.foldl_cons]
+    rw [ih h.2, lookup_set]
+    simp [h.1]
+
+theorem lookup_merge (r : Dict) (k : String) (x : Val) (hn : (r.map Prod.fst).Nodup) (h : r.lookup k = some x) :
+    ∀ d, (Dict.merge d r).lookup k = some x := by
+  induction r with
+  | nil => simp [List.lookup] at h
+  | cons e r ih =>
+    intro d
+    obtain ⟨k0, y⟩ := e
+    simp only [List.map_cons, List.nodup_cons] at hn
+    have hstep : Dict.merge d ((k0, y) :: r) = Dict.merge (d.set k0 y) r := by simp [Dict.merge]
+    rw [hstep]
+    by_cases h0 : k = k0
+    · subst h0
+      simp [List.lookup] at h
+      rw [lookup_merge_notin r k hn.1, lookup_set]
+      simp [h]
+    · have hb : (k == k0) = false := by simpa using h0
+      simp only [List.lookup, hb] at h
+      exact ih hn.2 h _
+
+/-- loop invariant of the generated struct methods: `done` = the members treated so far; the struct is untouched, the
+results are those of the treated members, and the member parameters hold the results obtained so far -/
 def LInv (s0 : St) (done : List String) (l : Loop) : Prop :=
   l.st.struct = s0.struct ∧ l.result.map Prod.fst = done.take l.result.length ∧
-  (l.stop = false → l.result.length = done.length)
+  (l.stop = false → l.result.length = done.length) ∧
+  (∀ k, l.st.mem.lookup k = match l.result.lookup k with
+    | some x => some x
+    | none => s0.mem.lookup k)
 
 theorem linv_keep (s0 : St) (done : List String) (m : String) (l l' : Loop) (h : LInv s0 done l)
-    (hst : l'.st.struct = l.st.struct) (hres : l'.result = l.result) (hstop : l'.stop = true) :
+    (hst : l'.st.struct = l.st.struct) (hmem : l'.st.mem = l.st.mem) (hres : l'.result = l.result) (hstop : l'.stop = true) :
     LInv s0 (done ++ [m]) l' := by
-  obtain ⟨h1, h2, h3⟩ := h
-  refine ⟨by rw [hst]; exact h1, ?_, fun hc => by rw [hstop] at hc; cases hc⟩
+  obtain ⟨h1, h2, h3, h4⟩ := h
+  refine ⟨by rw [hst]; exact h1, ?_, (fun hc => by rw [hstop] at hc; cases hc), (by rw [hmem, hres]; exact h4)⟩
   have hle : l.result.length ≤ done.length := by
     have := congrArg List.length h2
     simp only [List.length_map, List.length_take] at this
@@ -255,110 +381,155 @@ theorem linv_keep (s0 : St) (done : List String) (m : String) (l l' : Loop) (h :
   rw [hres, h2, List.take_append_of_le_length hle]
 
 theorem linv_push (s0 : St) (done : List String) (m : String) (x : Val) (l l' : Loop)
-    (h : LInv s0 done l) (hs : l.stop = false) (hst : l'.st.struct = l.st.struct)
+    (h : LInv s0 done l) (hm : m ∉ done) (hs : l.stop = false) (hst : l'.st.struct = l.st.struct)
+    (hmem : ∀ k, l'.st.mem.lookup k = if k = m then some x else l.st.mem.lookup k)
     (hres : l'.result = l.result ++ [(m, x)]) : LInv s0 (done ++ [m]) l' := by
-  obtain ⟨h1, h2, h3⟩ := h
+  obtain ⟨h1, h2, h3, h4⟩ := h
   have hlen := h3 hs
-  refine ⟨by rw [hst]; exact h1, ?_, fun _ => by simp [hres, hlen]⟩
-  rw [hres]
-  simp only [List.map_append, List.map_cons, List.map_nil, List.length_append, List.length_cons, List.length_nil]
-  rw [h2, hlen, List.take_of_length_le (by simp), List.take_of_length_le (by simp)]
+  have hnone : l.result.lookup m = none := by
+    apply lookup_none_of_not_mem_keys
+    rw [h2]
+    intro hc
+    exact hm (List.mem_of_mem_take hc)
+  refine ⟨by rw [hst]; exact h1, ?_, fun _ => by simp [hres, hlen], ?_⟩
+  · rw [hres]
+    simp only [List.map_append, List.map_cons, List.map_nil, List.length_append, List.length_cons, List.length_nil]
+    rw [h2, hlen, List.take_of_length_le (by simp), List.take_of_length_le (by simp)]
+  · intro k
+    rw [hmem k, hres, lookup_append_single]
+    by_cases hk : k = m
+    · subst hk
+      simp [hnone]
+    · simp only [hk, if_false]
+      rw [h4 k]
+      cases l.result.lookup k <;> rfl
 
 theorem linv_readIter (cfg : Cfg) (r : String → RRes Val) (s0 : St) (done : List String) (m : String) (l : Loop)
-    (h : LInv s0 done l) : LInv s0 (done ++ [m]) (readIter cfg r l m) := by
+    (hm : m ∉ done) (h : LInv s0 done l) : LInv s0 (done ++ [m]) (readIter cfg r l m) := by
   unfold readIter
   split
-  · rename_i hs; exact linv_keep s0 done m l l h rfl rfl hs
+  · rename_i hs; exact linv_keep s0 done m l l h rfl rfl rfl hs
   · rename_i hs
     have hs' : l.stop = false := by simpa using hs
     split
     · split
-      · exact linv_keep s0 done m l _ h rfl rfl rfl
-      · exact linv_push s0 done m _ l _ h hs' rfl rfl
+      · exact linv_keep s0 done m l _ h (by simp) (by simp) rfl rfl
+      · exact linv_push s0 done m _ l _ h hm hs' (by simp) (fun k => by simp [lookup_set]) rfl
     · split
-      · exact linv_keep s0 done m l _ h rfl rfl rfl
-      · exact linv_push s0 done m _ l _ h hs' rfl rfl
+      · exact linv_keep s0 done m l _ h rfl rfl rfl rfl
+      · rename_i x hx
+        refine linv_push s0 done m x l _ h hm hs' rfl (fun k => ?_) rfl
+        by_cases hk : k = m
+        · subst hk; simp [hx]
+        · simp [hk]
 
 theorem linv_writeIter (cfg : Cfg) (v : Dict) (w : String → WRes Val) (s0 : St) (done : List String) (m : String)
-    (l : Loop) (h : LInv s0 done l) : LInv s0 (done ++ [m]) (writeIter cfg v w l m) := by
+    (l : Loop) (hm : m ∉ done) (h : LInv s0 done l) : LInv s0 (done ++ [m]) (writeIter cfg v w l m) := by
   unfold writeIter
   split
-  · rename_i hs; exact linv_keep s0 done m l l h rfl rfl hs
+  · rename_i hs; exact linv_keep s0 done m l l h rfl rfl rfl hs
   · rename_i hs
     have hs' : l.stop = false := by simpa using hs
     split
-    · exact linv_keep s0 done m l _ h rfl rfl rfl
+    · exact linv_keep s0 done m l _ h rfl rfl rfl rfl
     · split
       · split
-        · exact linv_keep s0 done m l _ h rfl rfl rfl
-        · exact linv_push s0 done m _ l _ h hs' rfl rfl
-        · exact linv_push s0 done m _ l _ h hs' rfl rfl
-      · exact linv_push s0 done m _ l _ h hs' rfl rfl
+        · exact linv_keep s0 done m l _ h rfl rfl rfl rfl
+        · exact linv_push s0 done m _ l _ h hm hs' (by simp) (fun k => by simp [lookup_set]) rfl
+        · exact linv_push s0 done m _ l _ h hm hs' (by simp) (fun k => by simp [lookup_set]) rfl
+      · exact linv_push s0 done m _ l _ h hm hs' (by simp) (fun k => by simp [lookup_set]) rfl
 
 theorem linv_foldl (f : Loop → String → Loop) (s0 : St)
-    (hf : ∀ done m l, LInv s0 done l → LInv s0 (done ++ [m]) (f l m)) :
-    ∀ (ms done : List String) (l : Loop), LInv s0 done l → LInv s0 (done ++ ms) (ms.foldl f l) := by
+    (hf : ∀ done m l, m ∉ done → LInv s0 done l → LInv s0 (done ++ [m]) (f l m)) :
+    ∀ (ms done : List String) (l : Loop), (done ++ ms).Nodup → LInv s0 done l → LInv s0 (done ++ ms) (ms.foldl f l) := by
   intro ms
   induction ms with
-  | nil => intro done l h; simpa using h
+  | nil => intro done l _ h; simpa using h
   | cons m ms ih =>
-    intro done l h
-    have := ih (done ++ [m]) (f l m) (hf done m l h)
+    intro done l hn h
+    have hm : m ∉ done := by
+      intro hc
+      have := (List.nodup_append.1 hn).2.2 m hc m List.mem_cons_self
+      exact this rfl
+    have := ih (done ++ [m]) (f l m) (by simpa using hn) (hf done m l hm h)
     simpa using this
 
-theorem inv_finishLoop (cfg : Cfg) (s0 : St) (l : Loop) (h0 : Inv cfg s0) (hl : LInv s0 cfg.members l) :
-    Inv cfg (finishLoop cfg l) := by
-  obtain ⟨h1, h2, _⟩ := hl
+theorem inv_finishLoop (cfg : Cfg) (isRead : Bool) (s0 : St) (l : Loop) (h0 : Inv cfg s0) (hl : LInv s0 cfg.members l)
+    (hnd : cfg.members.Nodup) : Inv cfg (finishLoop cfg isRead l) := by
+  obtain ⟨h1, h2, _, h4⟩ := hl
+  have hrn : (l.result.map Prod.fst).Nodup := by
+    rw [h2]; exact List.Nodup.sublist (List.take_sublist _ _) hnd
   unfold finishLoop
   split
   · -- a member failed: the struct is re-synchronised with the partial result
-    apply inv_congr cfg (failedExc_struct _ _) (failedExc_mem _ _)
-    apply inv_assignStruct
-    rw [wf_iff, h1]
-    rw [keys_merge]
-    · exact (wf_iff cfg _).1 h0.1
-    · intro e he
-      have : e.1 ∈ l.result.map Prod.fst := List.mem_map_of_mem he
-      rw [h2] at this
-      rw [(wf_iff cfg _).1 h0.1]
-      exact List.mem_of_mem_take this
+    have key : Inv cfg (assignStruct cfg (Dict.merge l.st.struct l.result) l.st) := by
+      apply inv_assignStruct
+      · rw [wf_iff, h1]
+        rw [keys_merge]
+        · exact (wf_iff cfg _).1 h0.1
+        · intro e he
+          have : e.1 ∈ l.result.map Prod.fst := List.mem_map_of_mem he
+          rw [h2] at this
+          rw [(wf_iff cfg _).1 h0.1]
+          exact List.mem_of_mem_take this
+      · -- omitted: the merged value is what the struct holds, so every result obtained is the old value
+        intro hD k hk
+        rw [h1] at hD
+        obtain ⟨y, hy1, hy2⟩ := h0.2 k hk
+        refine ⟨y, by rw [h1, ← hD]; exact hy1, ?_⟩
+        rw [h4 k]
+        cases hr : l.result.lookup k with
+        | none => exact hy2
+        | some x =>
+          have := lookup_merge l.result k x hrn hr s0.struct
+          rw [← hD, hy1] at this
+          simp only
+          exact this.symm
+    exact inv_congr cfg (by simp) (by simp) key
   · rename_i hlen
     have hwf : wf cfg l.result = true := by
       rw [wf_iff, h2]
       apply List.take_of_length_le
       omega
     rw [if_pos hwf]
-    exact inv_congr cfg (fine_struct _) (fine_mem _) (inv_announceStruct cfg _ _ hwf)
+    apply inv_congr cfg (fine_struct _) (fine_mem _)
+    apply inv_announceStruct cfg _ _ hwf
+    intro hR k hk
+    rw [h1] at hR
+    obtain ⟨y, hy1, _⟩ := h0.2 k hk
+    rw [hR] at hy1
+    exact ⟨y, hy1, by rw [h4 k, hy1]⟩
 
-theorem inv_readStructB (cfg : Cfg) (r : String → RRes Val) (s : St) (h : Inv cfg s) : Inv cfg (readStructB cfg r s) := by
+theorem inv_readStructB (cfg : Cfg) (r : String → RRes Val) (s : St) (h : Inv cfg s) (hnd : cfg.members.Nodup) :
+    Inv cfg (readStructB cfg r s) := by
   unfold readStructB
-  apply inv_finishLoop cfg s _ h
-  have := linv_foldl (readIter cfg r) s (fun done m l hl => linv_readIter cfg r s done m l hl) cfg.members []
-    { st := s } ⟨rfl, by simp, fun _ => by simp⟩
+  apply inv_finishLoop cfg true s _ h _ hnd
+  have := linv_foldl (readIter cfg r) s (fun done m l hm hl => linv_readIter cfg r s done m l hm hl) cfg.members []
+    { st := s } (by simpa using hnd) ⟨rfl, by simp, fun _ => by simp, fun k => by simp [List.lookup]⟩
   simpa using this
 
-theorem inv_writeStructB (cfg : Cfg) (v : Dict) (w : String → WRes Val) (s : St) (h : Inv cfg s) :
+theorem inv_writeStructB (cfg : Cfg) (v : Dict) (w : String → WRes Val) (s : St) (h : Inv cfg s) (hnd : cfg.members.Nodup) :
     Inv cfg (writeStructB cfg v w s) := by
   unfold writeStructB
   split
   · exact h
-  · apply inv_finishLoop cfg s _ h
-    have := linv_foldl (writeIter cfg v w) s (fun done m l hl => linv_writeIter cfg v w s done m l hl) cfg.members []
-      { st := s } ⟨rfl, by simp, fun _ => by simp⟩
+  · apply inv_finishLoop cfg false s _ h _ hnd
+    have := linv_foldl (writeIter cfg v w) s (fun done m l hm hl => linv_writeIter cfg v w s done m l hm hl) cfg.members []
+      { st := s } (by simpa using hnd) ⟨rfl, by simp, fun _ => by simp, fun k => by simp [List.lookup]⟩
     simpa using this
 
-theorem inv_step (cfg : Cfg) (s : St) (op : Op) (h : Inv cfg s) : Inv cfg (step1 cfg s op) := by
-  have h' : Inv cfg { s with evs := [] } := h
+theorem inv_step (cfg : Cfg) (hnd : cfg.members.Nodup) (s : St) (op : Op) (h : Inv cfg s) : Inv cfg (step1 cfg s op) := by
+  have h' : Inv cfg { s with evs := [], exc := none } := h
   unfold step1
   cases op with
   | readStruct rA rB =>
     simp only [step]; split
     · exact inv_readStructC cfg rA _ h'
-    · exact inv_readStructB cfg rB _ h'
+    · exact inv_readStructB cfg rB _ h' hnd
   | writeStruct v wA wB =>
     simp only [step]; split
     · exact inv_writeStructC cfg v wA _ h'
-    · exact inv_writeStructB cfg v wB _ h'
+    · exact inv_writeStructB cfg v wB _ h' hnd
   | readMember m rA rB =>
     simp only [step]
     by_cases hm : m ∈ cfg.members
@@ -382,8 +553,9 @@ theorem inv_step (cfg : Cfg) (s : St) (op : Op) (h : Inv cfg s) : Inv cfg (step1
   | driverAssignStruct v =>
     simp only [step]
     split
-    · rename_i hv; exact inv_congr cfg (fine_struct _) (fine_mem _) (inv_assignStruct cfg v _ hv)
-    · exact h'
+    · rename_i hv
+      exact inv_congr cfg (fine_struct _) (fine_mem _) (inv_assignStruct cfg v _ hv (fun e => by rw [← e]; exact h'.2))
+    · exact inv_congr cfg (by simp) (by simp) h'
   | driverAssignMember m v =>
     simp only [step]
     by_cases hm : m ∈ cfg.members
@@ -393,10 +565,10 @@ theorem inv_step (cfg : Cfg) (s : St) (op : Op) (h : Inv cfg s) : Inv cfg (step1
     · have : cfg.members.contains m = false := by simpa using hm
       simp only [this, Bool.not_false, if_true]; exact h'
 
-theorem inv_exec (cfg : Cfg) (ops : List Op) : ∀ s, Inv cfg s → Inv cfg (exec cfg s ops) := by
+theorem inv_exec (cfg : Cfg) (hnd : cfg.members.Nodup) (ops : List Op) : ∀ s, Inv cfg s → Inv cfg (exec cfg s ops) := by
   induction ops with
   | nil => intro s h; exact h
-  | cons op ops ih => intro s h; exact ih _ (inv_step cfg s op h)
+  | cons op ops ih => intro s h; exact ih _ (inv_step cfg hnd s op h)
 
 theorem inv_init (cfg : Cfg) : Inv cfg (init cfg) := by
   refine ⟨by simp [wf, init, Function.comp_def], fun m hm => ⟨0, ?_, ?_⟩⟩ <;>
